@@ -28,7 +28,7 @@ CHECK_DEADLOCK FALSE
        "INVARIANTS TypeOK OnceInOrder BatchBound FlushOnClose ProducersNeverWaitForBroker" if invs else "", extra)
 
 
-def cfg_gen(drain, producers, nevents, chancap, burst=False):
+def cfg_gen(drain, producers, nevents, chancap, burst="none"):
     return """SPECIFICATION GenSpec
 CONSTANTS
   Producers = %s
@@ -38,7 +38,7 @@ CONSTANTS
   DrainOnDone = %s
   Burst = %s
 CHECK_DEADLOCK FALSE
-""" % (producers, nevents, chancap, "TRUE" if drain else "FALSE", "TRUE" if burst else "FALSE")
+""" % (producers, nevents, chancap, "TRUE" if drain else "FALSE", '"%s"' % burst)
 
 
 def cfg_trace(drain, chancap):
@@ -113,12 +113,13 @@ def run(ctx):
             sid += 1
             scenarios.append(beh_to_scenario(sid, b, json.loads("[" + prods.strip("{}") + "]"), chancap))
     # directed: a burst larger than the batch bound (writer kept away until everything is buffered)
-    behs = ctx.simulate("EventWriterGen", None, 1 if quick else 3, 700,
-                        cfg_text=cfg_gen(drain, '{"p1"}', 130, chancap, burst=True), seed=ctx.seed + 5)
-    for b in behs:
-        sid += 1
-        scenarios.append(beh_to_scenario(sid, b, ["p1"], chancap))
-        scenarios[-1]["origin"] = "burst"
+    for burst in ("pop", "close"):
+        behs = ctx.simulate("EventWriterGen", None, 1 if quick else 3, 900,
+                            cfg_text=cfg_gen(drain, '{"p1"}', 130 if burst == "pop" else 230, chancap, burst=burst), seed=ctx.seed + 5)
+        for b in behs:
+            sid += 1
+            scenarios.append(beh_to_scenario(sid, b, ["p1"], chancap))
+            scenarios[-1]["origin"] = "burst-" + burst
     if hang_scn:
         scenarios.append(hang_scn)
     # free-running stress
